@@ -31,6 +31,8 @@ def check(run):
         run.touch(a.fn)
         if w in allowed:
             run.ok('R2r', 'ep-readers', 'channel::ep read by ' + w, a.fn.loc(a.node), 'allowed: ' + allowed[w])
+        elif engines.helper_roots(fx, w, allowed):
+            run.ok('R2r', 'ep-readers', 'channel::ep read by ' + w, a.fn.loc(a.node), 'non-public helper of allowed reader(s) %s' % sorted(engines.helper_roots(fx, w, allowed)))
         else:
             run.violation('R2r', 'ep-readers', 'channel::ep read by ' + w, a.fn.loc(a.node),
                           '%s reads the true endpoint channel::ep; behind a NAT this differs from what the peer can observe (visible_ep), so the two views of the peer disagree' % w)
@@ -54,21 +56,25 @@ def check(run):
     caq = fx.fn1(A + '::check_accept_queue')
     run.touch(caq)
     stores = []
-    for n in caq.all_nodes():
-        tgt = rhs = None
-        if n['k'] == 'call' and n.get('opc') == '=' and len(n.get('args', [])) == 2:
-            tgt, rhs = n['args']
-        elif n['k'] == 'bin' and n['op'] == '=':
-            tgt, rhs = n['lhs'], n['rhs']
-        if tgt is not None and q.render(caq, tgt) == '*m_remote_endpoint':
-            stores.append((n, rhs))
+    for g in fx.repo_functions():        # the store may sit in check_accept_queue or in a helper split off from it
+        if g.cls != A or g.cfg is None:
+            continue
+        for n in g.all_nodes():
+            tgt = rhs = None
+            if n['k'] == 'call' and n.get('opc') == '=' and len(n.get('args', [])) == 2:
+                tgt, rhs = n['args']
+            elif n['k'] == 'bin' and n['op'] == '=':
+                tgt, rhs = n['lhs'], n['rhs']
+            if tgt is not None and q.render(g, tgt) == '*m_remote_endpoint':
+                stores.append((g, n, rhs))
     if not stores:
-        run.broke('check_accept_queue no longer stores through m_remote_endpoint (anchor vanished)')
-    for n, rhs in stores:
-        ok = bool(reads_field(caq, rhs, CH + '::visible_ep')) and not reads_field(caq, rhs, CH + '::ep')
-        idx0 = '[0]' in q.render(caq, rhs)
-        run.check(ok and idx0, 'R2r', 'view-accept', A + '::check_accept_queue', caq.loc(n),
-                  'the peer endpoint reported by accept is %s, not channel::visible_ep[0]: behind a NAT it differs from the accepted socket\'s remote_endpoint()' % q.render(caq, rhs),
+        run.broke('tcp::acceptor no longer stores through m_remote_endpoint (anchor vanished)')
+    for g, n, rhs in stores:
+        run.touch(g)
+        ok = bool(reads_field(g, rhs, CH + '::visible_ep')) and not reads_field(g, rhs, CH + '::ep')
+        idx0 = '[0]' in q.render(g, rhs)
+        run.check(ok and idx0, 'R2r', 'view-accept', g.norm, g.loc(n),
+                  'the peer endpoint reported by accept is %s, not channel::visible_ep[0]: behind a NAT it differs from the accepted socket\'s remote_endpoint()' % q.render(g, rhs),
                   'reports visible_ep[0] (the initiator as seen by the acceptor)')
 
     run.clause('refusal: on the error path of async_connect the channel is dropped and the completion goes through m_connect_timer armed with a positive constant; never post')
